@@ -33,6 +33,7 @@ class Opts:
         self.epipe = False           # an endpoint may stop receiving (send -> EPIPE) while it keeps sending
         self.verbose = None          # verbosity both processes run at (10 + v: verbosity v, stderr gone); None = rotate
         self.platform = None         # errno numbering (0 POSIX, 1 would-block = 10035 as on Windows); None = rotate
+        self.clock = None            # what the clocks do during the scenario (tunnel_sim.CLOCK_PROGRAMS); None = rotate
         self.__dict__.update(k)
 
 
@@ -64,6 +65,7 @@ _verb_state = [0]
 def set_verbosity_seed(seed):
     _verb_state[0] = int(seed) % len(VERBS)
     _plat_state[0] = int(seed) % len(PLATS)
+    _clock_state[0] = int(seed) % len(CLOCKS)
 
 
 def next_verbose():
@@ -84,6 +86,41 @@ def next_platform():
     return v
 
 
+# Time is a dimension too: period 9, coprime to the other two rotations.
+CLOCKS = [0, 2, 0, 3, 0, 1, 4, 0, 5]
+_clock_state = [0]
+
+
+def next_clock():
+    v = CLOCKS[_clock_state[0] % len(CLOCKS)]
+    _clock_state[0] += 1
+    return v
+
+
+class pinned:
+    """Re-run a directed scenario under the configuration a replay file recorded (verbosity, platform, clock) instead
+    of whatever the rotations would hand out next."""
+
+    def __init__(self, cfgv):
+        self.cfgv = list(cfgv or [])
+
+    def __enter__(self):
+        import sys
+        me = sys.modules[__name__]
+        self.saved = (me.next_verbose, me.next_platform, me.next_clock)
+        c = self.cfgv
+        me.next_verbose = lambda: (c[4] if len(c) > 4 else 0)
+        me.next_platform = lambda: (c[5] if len(c) > 5 else 0)
+        me.next_clock = lambda: (c[6] if len(c) > 6 else 0)
+        return self
+
+    def __exit__(self, *a):
+        import sys
+        me = sys.modules[__name__]
+        me.next_verbose, me.next_platform, me.next_clock = self.saved
+        return False
+
+
 class Scenario:
     def __init__(self, rng, o):
         self.rng, self.o = rng, o
@@ -91,7 +128,10 @@ class Scenario:
             o.verbose = next_verbose()
         if getattr(o, 'platform', None) is None:
             o.platform = next_platform()
-        self.s = ts.Script(o.maxchan, o.bufsize, o.chani, verbose=getattr(o, 'verbose', 0), platform=getattr(o, 'platform', 0))
+        if getattr(o, 'clock', None) is None:
+            o.clock = next_clock()
+        self.s = ts.Script(o.maxchan, o.bufsize, o.chani, verbose=getattr(o, 'verbose', 0), platform=getattr(o, 'platform', 0),
+                           clock=o.clock)
         self.t = self.s.t
         self.faulty = set()      # flows that received an injected fault
         self.refused = set()     # (flow, endpoint) pairs whose endpoint stopped receiving (EPIPE): not a fault of the flow
@@ -582,7 +622,7 @@ def replay_work(case):
     cfg = case['script'][0].split()
     cfgv = case.get('cfg') or []
     o = Opts(maxchan=int(cfg[1]), bufsize=int(cfg[2]), chani=int(cfg[3]), verbose=(cfgv[4] if len(cfgv) > 4 else 0),
-             platform=(cfgv[5] if len(cfgv) > 5 else 0))
+             platform=(cfgv[5] if len(cfgv) > 5 else 0), clock=(cfgv[6] if len(cfgv) > 6 else 0))
     sc = Scenario(random.Random(0), o)
     try:
         for st in decode_steps(case['steps']):
@@ -1203,22 +1243,62 @@ def abort_then_new_flow(ctx, rng, prop, chunks):
         sc.close()
 
 
+def continue_fairly(s, script_lines=(), max_rounds=600):
+    """After the recorded steps of a replay: let both loops run on in the environment as it is, every socket
+    answering fully, until nothing changes any more.  A recorded schedule is exact only for the code it was recorded
+    on (a `round` step names how many frames had arrived THEN); on other code the same steps can simply stop early, and
+    'at the end of the schedule bytes are missing' would be said of code that delivers them one pass later."""
+    sc = Scenario.__new__(Scenario)
+    sc.rng = None
+    sc.o = Opts(latency=any(l.startswith('full ') for l in script_lines))
+    sc.s, sc.t = s, s.t
+    sc.faulty, sc.refused, sc.aborted = set(), set(), set()
+    sc.wire, sc.nontrivial = [], set()
+    sc._seen_c = sc._seen_s = 0
+    sc.stop = False
+    sc.bare = set()
+    sc.followed = {'c': set(), 's': set()}
+    sc.idle_bad, sc.mu_bad, sc.wrote = [], [], {}
+    return sc.drain(max_rounds=max_rounds)
+
+
+def replay_torn_down(s, case):
+    """Replay verdict for the '...-flow-not-torn-down' keys: the recorded steps, a fair continuation, then the flow the
+    report names must be gone from both ends (handlers dropped, id free, sockets shut)."""
+    continue_fairly(s, case.get('script', []))
+    t = s.t
+    if t.died:
+        return True, 'process died: %s' % t.died
+    i = case.get('flow') or 0
+    if i >= len(t.flows):
+        return False, 'the flow the report names does not exist on this tree'
+    f = t.flows[i]
+    st = dict(client_handler=f.cproxy in t.chandlers, server_handler=f.sproxy is not None and f.sproxy in t.shandlers,
+              client_id_held=bool(t.cmux.channels.get(f.chan)), server_id_held=bool(t.smux.channels.get(f.chan)),
+              app_shut=f.app.saw_shut, dst_shut=f.dst.saw_shut or not f.s_ever)
+    bad = (st['client_handler'] or st['server_handler'] or st['client_id_held'] or st['server_id_held']
+           or not st['app_shut'] or not st['dst_shut'])
+    return bad, ('flow %d after the recorded schedule and a fair continuation: %r' % (i, st))
+
+
 def replay_script(lines, steps=None):
     """Re-run a recorded scenario on the real code; returns the Scenario-like object.  With `steps` (the recorded
     real-code steps) the run is exact, select-loop rounds included; `lines` alone (older replay files) re-runs the
     model-level rendering, which has no rounds."""
     verbose = 0
     platform = 0
+    clock = 0
     if isinstance(lines, dict):
         steps = lines.get('steps')
         cfgv = lines.get('cfg') or []
         verbose = cfgv[4] if len(cfgv) > 4 else 0
         platform = cfgv[5] if len(cfgv) > 5 else 0
+        clock = cfgv[6] if len(cfgv) > 6 else 0
         lines = lines['script']
     cfg = lines[0].split()
     maxchan, bufsize, chani = int(cfg[1]), int(cfg[2]), int(cfg[3])
     occ = [int(x) for x in cfg[4:]]
-    s = ts.Script(maxchan, bufsize, chani, occ, verbose=verbose, platform=platform)
+    s = ts.Script(maxchan, bufsize, chani, occ, verbose=verbose, platform=platform, clock=clock)
     wrote = {}
     if steps:
         for st in decode_steps(steps):
